@@ -36,8 +36,9 @@ impl<'a> MtHelpers<'a> {
         });
         let error_type: Type = match associated_error {
             Some(error) => parse_quote!(#error),
-            // This should never happen as the `interface` macro requires the trait to have an associated `Error` type
-            None => unreachable!(),
+            // A missing `Error` type has already been reported by `InterfaceInput::new`, which does not abort
+            // the expansion. Fall back to the expected name so that the diagnostic is not replaced by a panic.
+            None => parse_quote!(Error),
         };
 
         Self {
